@@ -36,12 +36,12 @@ EVENTS = ["train_start", "epoch_start", "batch_start", "batch_end", "epoch_end",
 def tlc_sets(tier):
     if tier == "quick":
         return [(1, 2, 2), (2, 1, 1), (0, 1, 3), (1, 3, 1), (1, 1, 2)]
-    return [(1, 2, 2), (2, 1, 1), (0, 1, 3), (1, 3, 1), (0, 2, 2), (1, 1, 4), (3, 3, 2), (0, 0, 1), (1, 3, 2), (2, 3, 3), (0, 3, 1), (1, 2, 3), (0, 3, 2), (1, 4, 1), (2, 4, 2), (0, 2, 4), (1, 1, 5), (4, 3, 1)]
+    return [(1, 2, 2), (2, 1, 1), (0, 1, 3), (1, 3, 1), (0, 2, 2), (1, 1, 4), (3, 3, 2), (0, 0, 1), (1, 3, 2), (2, 3, 3), (0, 3, 1), (1, 2, 3), (0, 3, 2), (1, 4, 1), (2, 4, 2), (0, 2, 4), (1, 1, 5), (4, 3, 1), (0, 4, 2), (2, 4, 3), (3, 4, 2), (1, 4, 3)]
 
 
 def bound(tier):
     q = tier == "quick"
-    return dict(starting_epoch=[0, 2 if q else 3], epochs=[0, 2 if q else 3], N=[1, 3], pos_batch_size=[1, 2, 4], neg_batch_size="default; {1,2,3} != pos for N=3",
+    return dict(starting_epoch=[0, 2 if q else 4], epochs=[0, 2 if q else 4], N=[1, 3], pos_batch_size=[1, 2, 4], neg_batch_size="default; {1,2,3} != pos for N=3",
                 callback_lists=["[R]", "[R,S]", "[S,R]", "[R1,S,R2]", "[Lambda-recorder,S]", "[derived recorder, derived injector]"], timer=[False, True],
                 options=["scheduler=StepLR", "optimizer=Adam + optimizer_args", "k=3", "progbar + ignored keyword", "callbacks as a tuple"], second_fit="after stop / reset on the same objects (RS list and option variants)",
                 stop="none; pre-set; one request at every event of the run (every callback position)", kinds="positive full grid; complex/mixed N<=2",
@@ -50,7 +50,7 @@ def bound(tier):
 
 def plan(tier, seed):
     cfgs = []
-    emax = 2 if tier == "quick" else 3
+    emax = 2 if tier == "quick" else 4
     for kind in ("positive", "complex", "mixed"):
         for e0 in range(0, emax + 1):
             for E in range(0, emax + 1):
